@@ -128,10 +128,25 @@ func render(c *Case, twin bool) string {
 		}
 	}
 	// S lives outside the analysed file: it is reached as the jsonb column of Tbl, never a table itself
-	return "package fx\n\ntype Other struct{ Q []string }\n\n" + decls.String() + "type S struct {\n" + body + "}\n"
+	out := "package fx\n\ntype Other struct{ Q []string }\n\n" + decls.String() + "type S struct {\n" + body + "}\n"
+	if sharesBase(c) {
+		// a second struct embedding the same struct first, with fields of its own: S keeps its own fields
+		out += "\ntype S2 struct {\n\t" + fieldName(c.Fields[0]) + "\n\tVotes int\n\tNote  string\n}\n"
+	}
+	return out
 }
 
-const sourceFile = "package fx\n\ntype Tbl struct {\n\tId  int64\n\tCol S\n}\n"
+// sharesBase: the first field of S is an embedded struct, which a second struct S2 (column Col2 of Tbl) embeds too.
+func sharesBase(c *Case) bool {
+	return len(c.Fields) > 0 && c.Fields[0].Emb == "struct" && c.Fields[0].Exported && !c.Fields[0].Hasjson && c.Fields[0].Gomacro == ""
+}
+
+func sourceFile(c *Case) string {
+	if sharesBase(c) {
+		return "package fx\n\ntype Tbl struct {\n\tId   int64\n\tCol  S\n\tCol2 S2\n}\n"
+	}
+	return "package fx\n\ntype Tbl struct {\n\tId  int64\n\tCol S\n}\n"
+}
 
 func dirOf(i int, twin bool) string {
 	if twin {
@@ -176,7 +191,7 @@ func Worker(args []string) {
 			c := &in.Cases[i]
 			for _, twin := range []bool{false, true} {
 				d := dirOf(c.Case, twin)
-				mod.Write(map[string]string{d + "/defs.go": sourceFile, d + "/other.go": render(c, twin)})
+				mod.Write(map[string]string{d + "/defs.go": sourceFile(c), d + "/other.go": render(c, twin)})
 				rels = append(rels, d+"/defs.go")
 			}
 			c.Source = render(c, false)
@@ -468,6 +483,19 @@ func Run(c *core.Ctx, replay string) (*core.Result, error) {
 			}
 			fs = append(fs, strSibling)
 			cases = append(cases, Case{Case: id, Fields: fs, Ignored: ign[rng.Intn(3)]})
+		}
+	}
+	if replay == "" {
+		// an embedded struct of three fields (its field list has spare capacity) embedded first by S and by S2
+		plain := func(name, ty, key string) AField {
+			return AField{Goname: name, Exported: true, Emb: "no", Sub: []AField{}, Type: ty, Hasjson: key != "", Tagname: key}
+		}
+		for _, n := range []int{3, 5} {
+			base := AField{Goname: "Base", Exported: true, Emb: "struct", Sub: []AField{}}
+			for k := 0; k < n; k++ {
+				base.Sub = append(base.Sub, plain(fmt.Sprintf("B%d", k), []string{"int", "string"}[k%2], []string{"", fmt.Sprintf("b%d", k)}[k%2]))
+			}
+			cases = append(cases, Case{Case: len(cases) + 1, Fields: []AField{base, plain("Title", "string", "title"), plain("Zz", "string", "")}, Ignored: "jsondash"})
 		}
 	}
 	var out workIn
